@@ -165,7 +165,10 @@ void h_run(Ctx &c)
 	s.gets.reserve(4096);
 
 	vrt_reset(s.mode, choose_cb);
-	vrt_config((int)c.param("preempt", -1), (int)c.param("every_access", 0), 0);
+	int every = (int)c.param("every_access", fixed ? 0 : -1);
+	if (every < 0)
+		every = t.weighted({ 2, 1 }) == 1; // every-access granularity: pre-empt / interrupt between plain accesses too
+	vrt_config((int)c.param("preempt", -1), every, 0);
 	ar_setup(s.len);
 	for (unsigned i = 0; i < pre; i++) { // every starting position of the indices
 		ar_put(0x55);
